@@ -83,7 +83,17 @@ func runWorker(e *Env, ses *workerlib.Session, maxprocs int, timeout time.Durati
 			ses.SimEpoch = curSimEpoch
 		}
 	}
+	if ses.StepNS == 0 {
+		ses.StepNS = []int64{1000, 100, 10, 1000, 1}[(ses.Worker/5)%5]
+		if ses.Mode == "seqall" || ses.Mode == "cover" {
+			ses.StepNS = 1000
+		}
+		if curStepNS > 0 {
+			ses.StepNS = curStepNS
+		}
+	}
 	cmd.Env = append(cmd.Env,
+		fmt.Sprintf("VERIF_SIM_STEPNS=%d", ses.StepNS),
 		fmt.Sprintf("VERIF_SIM_EPOCH=%d", ses.SimEpoch),
 		fmt.Sprintf("VERIF_SIM_PROCS=%d", ses.SimProcs),
 		fmt.Sprintf("GOMAXPROCS=%d", maxprocs),
